@@ -48,7 +48,8 @@ TabOf(name) == CASE name = "const"      -> R.consts
 
 RECURSIVE Adv(_, _)
 Adv(j, o) == IF j <= Len(R.lines) /\ R.lines[j][1] < o THEN Adv(j + 1, o) ELSE j
-LineAt(j, o) == IF j <= Len(R.lines) /\ R.lines[j][1] = o THEN R.lines[j][2] ELSE -1
+(* first_line shift of the std API: starts_line' = starts_line + (first_line - co_firstlineno); R.shift = 0 elsewhere *)
+LineAt(j, o) == IF j <= Len(R.lines) /\ R.lines[j][1] = o THEN R.lines[j][2] + R.shift ELSE -1
 
 (* the clauses one logged record g must satisfy against the reference record r *)
 Checks(r, g, j) ==
